@@ -279,6 +279,7 @@ func buildAlphabet() []op {
 	add("append", false, sAddEq{a, mm})
 	add("append", true, sAddEq{b, litInt(7)})
 	add("append", false, sAddEq{b, litSl777})
+	add("append", false, sAddEq{b, a})
 	add("append", false, sLet{x, eAdd{a, litInt(4)}})
 	add("append", true, sLet{x, eAdd{b, litInt(7)}})
 	add("append", false, sExpr{eAdd{a, litInt(4)}})
@@ -390,6 +391,8 @@ func buildAlphabet() []op {
 	add("struct/field-elem", false, sExpr{idx(mem(st, "D"), litStr("n"))})
 	add("struct/field-elem", false, sExpr{eLen{mem(st, "C")}})
 	add("struct/field-elem", false, sExpr{idx(mem(st, "B"), litInt(0))})
+	add("struct/field-elem", false, sLet{idx(mem(st, "B"), litInt(0)), litStr("j")})
+	add("typed/index-write", false, sLet{idx(idx(ts, litInt(0)), litInt(0)), litStr("w")})
 	add("alias/typed-string", true, sLet{x, mem(st, "B")})
 	add("alias/typed-string", false, sLet{x, idx(ts, litInt(0))})
 	// O. script functions that mutate, append to or re-slice their parameter
@@ -406,13 +409,31 @@ func buildAlphabet() []op {
 	add("call", false, sCall{"z", []stmt{sLet{idx(z, litInt(0)), litInt(9)}}, t})
 
 	seen := map[string]bool{}
-	for _, o := range ops {
+	for i, o := range ops {
 		if seen[o.ID] {
 			panic("c10: duplicate operation " + o.ID)
 		}
 		seen[o.ID] = true
+		ops[i].Core = coreIDs[o.ID]
+	}
+	for id := range coreIDs {
+		if !seen[id] {
+			panic("c10: core operation not in the alphabet: " + id)
+		}
 	}
 	return ops
+}
+
+// coreIDs: the reduced alphabet used for the third level of the quick tier: one
+// representative per mutating construct (the reads add no states).
+var coreIDs = map[string]bool{
+	`a[0] = 9`: true, `a[<len a>] = 9`: true, `b[0] = 7`: true, `b[<len b>] = 7`: true,
+	`b = a[0:1]`: true, `b = b[1:]`: true, `b = a[0:1:2]`: true, `b = a`: true, `x = m`: true,
+	`a += 4`: true, `b += 7`: true, `x = b + 7`: true,
+	`delete(m, "k")`: true, `delete(m, [1])`: true,
+	`s[<len s>] = "z"`: true, `x[0] = 9`: true, `x[0] = "z"`: true,
+	`t[0] = 9`: true, `st.A = 9`: true, `st.C = a`: true, `x = st.B`: true,
+	`func(z) { z[0] = 9 }(a)`: true, `func(z) { z += 9 }(b)`: true,
 }
 
 // ---------- initial configurations ----------
